@@ -60,7 +60,7 @@ pub struct Trace {
     pub read_log: Vec<usize>,
 }
 
-pub const SPIN_LIMIT: usize = 10_000;
+pub const SPIN_LIMIT: usize = 8_000_000;
 
 #[derive(Debug)]
 pub struct Scripted {
